@@ -105,7 +105,7 @@ var g04TagPrefixes = []string{"", "abc ", "x>", "x >", "x'>", "x\">", "x`>", "'>
 	// an end tag closed after white space, a slash or a quoted value right before the vector
 	"\"></a >", "'></p\n>", "x></b/>", "\"></a b='c'>", "</i\t>", "x></td >",
 	// other complete constructs right before the vector
-	"<!--x-->", "<!-- x --!>", "<![CDATA[x]]>", "<%x%>", "<?x?>", "</>", "<b/>", "<b c=d/>", "<b c='d'/>", "<b c=d>t</b>", "<!x>", "x<!---->", "<b c=\"d\"e=f>", "&lt;", "<b\x00c>", "<b c=d\x00>"}
+	"<!--x-->", "<!-- x --!>", "<![CDATA[x]]>", "<%x%>", "<?x?>", "</>", "<b/>", "<b c=d/>", "<b c='d'/>", "<b c=d>t</b>", "<!x>", "x<!---->", "<b c=\"d\"e=f>", "&lt;", "<b\x00c>", "<b c=d\x00>", "<b><![cdata[></b>", "<![cDaTa[x>", "<![CDATA[x]]><![cdata[>"}
 
 type g04AttrPrefix struct {
 	text   string
@@ -332,7 +332,23 @@ func g04Render(v g04Vec, o g04Opts) string {
 		if o.stretch == 2 {
 			runLen = o.stretchLen
 		}
-		val = junk + encodeSchemeW(v.value, o.enc, o.inter, o.mask>>7, q != "", runLen, o.wide) + "x"
+		rest := "x"
+		if o.dup == 0 && o.enc>>33&3 == 1 && strings.HasSuffix(v.value, ":") {
+			// what follows the scheme is arbitrary text
+			rests := []string{"alert(1)", "text/html;base64,PHNj#data:image/png", "x//data:image/jpeg;base64,", "void(0)", "if(a<b)alert(1)", "x?a=1&b=2", "//example.com/#javascript:void(0)", "image/svg+xml,x"}
+			rest = rests[int(o.enc>>35)%len(rests)]
+			if q == "" {
+				rest = strings.Map(func(r rune) rune {
+					if r == ' ' || r == '>' {
+						return -1
+					}
+					return r
+				}, rest)
+			} else if strings.Contains(rest, q) {
+				rest = "x"
+			}
+		}
+		val = junk + encodeSchemeW(v.value, o.enc, o.inter, o.mask>>7, q != "", runLen, o.wide) + rest
 	case "indirect":
 		val = insertNul(applyMask(v.value, o.mask>>5), int(o.inter%7))
 		if o.wide && q != "" {
